@@ -274,6 +274,10 @@
 
 pub mod atomics;
 
+#[cfg(metrics_verif)]
+#[doc(hidden)]
+pub mod __verif;
+
 mod common;
 mod macros;
 pub use self::common::*;
